@@ -30,6 +30,17 @@ Theorem C11_unknown_strategy_ignored : forall s x, oget (sr_name x) (ls_orders s
 Proof. exact unknown_strategy_ignored. Qed.
 Print Assumptions C11_adopted_once.
 
+(* a WHOLE snapshot, any number of orders: every order that is linked to its row (the row is filed under its reference and carries its bet
+   id) and has nothing outstanding (Executable, or Pending with the bet id known) holds exactly that row afterwards, whatever the other
+   rows of the snapshot do *)
+Theorem C11_snapshot_converges : forall rows, NoDup (map sr_name rows) -> forall s,
+  status_in SExecComplete (ls_complete s) = true -> status_in SExecutable (ls_complete s) = false ->
+  (forall x, In x rows -> ready s x) ->
+  forall x, In x rows -> exists o', oget (sr_name x) (ls_orders (process_snapshot s rows)) = Some o' /\ tracks o' (sr_row x) /\
+                                    lo_matched o' = rw_matched (sr_row x) /\ lo_remaining o' = rw_remaining (sr_row x).
+Proof. exact snapshot_converges. Qed.
+Print Assumptions C11_snapshot_converges.
+
 (* convergence does NOT hold for every history: *)
 (* F-C11-1: a synchronous placement answered TIMEOUT never learns its bet id from the stream (only async orders pick it up): it stays
    Pending, bet id unknown, while the exchange holds the bet *)
